@@ -97,12 +97,12 @@ var adjOnly = map[string]func(*api.ContainerAdjustment, Op){
 			a.SetArgs(append([]string{}, o.L...))
 		}
 	},
-	"UpdateArgs":   func(a *api.ContainerAdjustment, o Op) { a.UpdateArgs(append([]string(nil), o.L...)) },
-	"AddHooks":     func(a *api.ContainerAdjustment, o Op) { a.AddHooks(o.Hooks.ToAPI()) },
-	"AddRlimit":    func(a *api.ContainerAdjustment, o Op) { a.AddRlimit(o.S1, o.U, o.U2) },
-	"AddDevice":    func(a *api.ContainerAdjustment, o Op) { a.AddDevice(o.Dev.ToAPI()) },
-	"RemoveDevice": func(a *api.ContainerAdjustment, o Op) { a.RemoveDevice(o.S1) },
-	"AddCDIDevice": func(a *api.ContainerAdjustment, o Op) { a.AddCDIDevice(&api.CDIDevice{Name: o.S1}) },
+	"UpdateArgs":          func(a *api.ContainerAdjustment, o Op) { a.UpdateArgs(append([]string(nil), o.L...)) },
+	"AddHooks":            func(a *api.ContainerAdjustment, o Op) { a.AddHooks(o.Hooks.ToAPI()) },
+	"AddRlimit":           func(a *api.ContainerAdjustment, o Op) { a.AddRlimit(o.S1, o.U, o.U2) },
+	"AddDevice":           func(a *api.ContainerAdjustment, o Op) { a.AddDevice(o.Dev.ToAPI()) },
+	"RemoveDevice":        func(a *api.ContainerAdjustment, o Op) { a.RemoveDevice(o.S1) },
+	"AddCDIDevice":        func(a *api.ContainerAdjustment, o Op) { a.AddCDIDevice(&api.CDIDevice{Name: o.S1}) },
 	"SetLinuxCgroupsPath": func(a *api.ContainerAdjustment, o Op) { a.SetLinuxCgroupsPath(o.S1) },
 	"SetLinuxOomScoreAdj": func(a *api.ContainerAdjustment, o Op) {
 		if o.P == nil {
